@@ -448,7 +448,7 @@ pub fn run() {
         alphabet.push(Op::Input(i, 0x5A));
     }
     alphabet.extend([Op::Di1(0xE1), Op::J1(true), Op::J1(false), Op::Uio2(true), Op::Ai1(13)]);
-    let depth = if quick { 3 } else { 4 };
+    let depth = 4; // both tiers (measured: seconds); the tiers differ in the I/O-page pair sweep
     #[derive(Clone)]
     struct Node {
         b: Bus,
